@@ -16,6 +16,17 @@ use std::collections::hash_map::DefaultHasher;
 use std::convert::TryFrom;
 use std::hash::{Hash, Hasher};
 
+/// Display under every kind of format specification (alternate flag, width, alignment, fill,
+/// precision, sign / zero flags): an implementation may branch on any of them.
+fn display_all<T: std::fmt::Display>(x: &T) {
+    let _ = (format!("{:#}", x), format!("{:<12}", x), format!("{:>70}", x), format!("{:*^9.3}", x), format!("{:.0}", x), format!("{:+08}", x));
+}
+
+/// Debug under the alternate (pretty) flag and with width / precision.
+fn debug_all<T: std::fmt::Debug>(x: &T) {
+    let _ = (format!("{:#?}", x), format!("{:12.2?}", x), format!("{:#x?}", x));
+}
+
 fn h<T: Hash>(t: &T) -> u64 {
     let mut s = DefaultHasher::new();
     t.hash(&mut s);
@@ -25,6 +36,10 @@ fn h<T: Hash>(t: &T) -> u64 {
 fn name_observers(n: &Name, other: &Name, step: &mut dyn FnMut(&str)) {
     step("Name Display");
     let _ = format!("{}", n);
+    step("Name Display with format flags ({:#}, width, precision, fill)");
+    display_all(n);
+    step("Name Debug with format flags ({:#?}, width, precision)");
+    debug_all(n);
     step("Name to_string");
     let _ = n.to_string();
     step("Name Debug");
@@ -33,6 +48,10 @@ fn name_observers(n: &Name, other: &Name, step: &mut dyn FnMut(&str)) {
     for l in n.iter() {
         step("Label Display");
         let _ = format!("{}", l);
+        step("Label Display with format flags ({:#}, width, precision, fill)");
+        display_all(l);
+        step("Label Debug with format flags ({:#?}, width, precision)");
+        debug_all(l);
         step("Label to_string");
         let _ = l.to_string();
         step("Label Debug");
@@ -58,6 +77,10 @@ fn name_observers(n: &Name, other: &Name, step: &mut dyn FnMut(&str)) {
 fn cs_observers(c: &CharacterString, step: &mut dyn FnMut(&str)) {
     step("CharacterString Display");
     let _ = format!("{}", c);
+    step("CharacterString Display with format flags ({:#}, width, precision, fill)");
+    display_all(c);
+    step("CharacterString Debug with format flags ({:#?}, width, precision)");
+    debug_all(c);
     step("CharacterString to_string");
     let _ = c.to_string();
     step("CharacterString Debug");
@@ -66,6 +89,8 @@ fn cs_observers(c: &CharacterString, step: &mut dyn FnMut(&str)) {
     if let Err(e) = String::try_from(c.clone()) {
         step("Display / Debug of the error a failed conversion returns");
         let _ = (format!("{}", e), format!("{:?}", e), e.to_string());
+        display_all(&e);
+        debug_all(&e);
     }
     step("CharacterString clone/into_owned/hash");
     let o = c.clone().into_owned();
@@ -77,6 +102,10 @@ pub fn inspect(p: &Packet, step: &mut dyn FnMut(&str)) {
     let local = Name::new_unchecked("local");
     step("Packet Debug");
     let _ = format!("{:?}", p);
+    if p.questions.len() + p.answers.len() + p.name_servers.len() + p.additional_records.len() <= 2 {
+        step("Packet Debug with the alternate flag ({:#?})");
+        let _ = format!("{:#?}", p);
+    }
     step("Packet clone");
     let c = p.clone();
     let _ = (c.id(), c.rcode(), c.opcode(), c.opt().map(|o| format!("{:?}", o)));
@@ -110,6 +139,8 @@ pub fn inspect(p: &Packet, step: &mut dyn FnMut(&str)) {
         }
         step("RData Debug");
         let _ = format!("{:?}", r.rdata);
+        step("RData Debug with the alternate flag ({:#?})");
+        let _ = format!("{:#?}", r.rdata);
         step("RData clone/into_owned/eq/hash/type_code");
         let rd = r.rdata.clone().into_owned();
         let _ = (rd == r.rdata, h(&rd), rd.type_code());
@@ -121,11 +152,15 @@ pub fn inspect(p: &Packet, step: &mut dyn FnMut(&str)) {
                 if let Err(e) = t.clone().long_attributes() {
                     step("Display / Debug of the error long_attributes returns");
                     let _ = (format!("{}", e), format!("{:?}", e));
+                    display_all(&e);
+                    debug_all(&e);
                 }
                 step("String::try_from(TXT)");
                 if let Err(e) = String::try_from(t.clone()) {
                     step("Display / Debug of the error String::try_from(TXT) returns");
                     let _ = (format!("{}", e), format!("{:?}", e));
+                    display_all(&e);
+                    debug_all(&e);
                 }
                 step("TXT Debug");
                 let _ = format!("{:?}", t);
@@ -176,7 +211,11 @@ pub fn check_bytes(b: &[u8]) -> (Vec<Finding>, bool) {
         Ok(Ok(p)) => p,
         Ok(Err(e)) => {
             // the error a rejected message yields can be formatted as well
-            return match guarded(|| (format!("{}", e), format!("{:?}", e)).0.len()) {
+            return match guarded(|| {
+                display_all(&e);
+                debug_all(&e);
+                (format!("{}", e), format!("{:?}", e)).0.len()
+            }) {
                 Ok(_) => (vec![], false),
                 Err(pn) => (vec![finding(format!("C12|parse-error Display|{}", pn.sig()), format!("formatting the error returned for {}: {:?}", crate::engine::truncate(&hex(b), 200), pn), mk())], false),
             };
